@@ -25,6 +25,37 @@ WORLD_NOTE = ('Modelled not verified: the dependency check inside BoundRoute.__i
               'application and of every Route object look for. ')
 
 CLAIMED = {
+ 'C09': dict(
+   text=('Theorems (Props/C09.v): every exported error class carries the standard status code of its name (class table '
+         'REGENERATED from errors.py, checked against an RFC table inside Coq); html_escape output contains no angle bracket or '
+         'quote; str.format never re-scans inserted values, so fields without markup characters cannot change the markup '
+         'skeleton of a page; for to_html (TRANSLATED from errors.py into a Gallina function) and the XML template the '
+         'sequence of markup-significant characters depends only on which optional lines are present, never on field contents; '
+         'body builder and Content-Type are selected by the same key of the regenerated MIME_SUPPORT_MAP, plain text otherwise; '
+         'no variable reference of the debug templates (inventory regenerated from _contextual_errors.py) disables escaping; the '
+         'escaping calls of to_escaped_dict are pinned. Tie: translator + every HTTPException subclass x overrides x nasty '
+         'strings x 16 Accept headers x default/debug handlers; HTML/XML bodies compared byte-for-byte with the translated '
+         'functions, bodies parsed with json / minidom / an HTML tokenizer.'),
+   note=COMMON_NOTE + 'Modelled not verified: html.escape (transcribed as esc_chr), str.format (fmt), werkzeug Accept negotiation '
+        '(best_match is an input of the model; the oracle checks acceptability with an independent RFC 7231 reading), stdlib json, ashes '
+        '(premise: references are escaped unless filter s). The integer code is assumed to print as digits (premise of C09_escaped_fields_clean).',
+   technique='Coq proof (skeleton invariance of format/escape by induction over templates; finite table checks by vm_compute on regenerated tables) + translator (class table, templates, to_html as Gallina) + extracted-model differential check',
+   design='6/C09'),
+ 'C20': dict(
+   text=('Theorems (Props/C20.v) over Model/Flaw.v (the page template as a node list REGENERATED from _FLAW_TEMPLATE, rendered '
+         'under the ashes discipline incl. its else-less-section rule): for every error text and every monitored-file list the '
+         'page contains the HTML-escaped text and the HTML-escaped name of every file (visible and hidden lists); if the last '
+         'line is "Type: message" the page contains the escaped type and the escaped message; inserted values contain no '
+         'markup-significant character; the bare excepts around traceback parsing and last-line extraction, the catch-all '
+         'route and the absence of unescaped references are pinned from the source. Tie: translator + real tracebacks (15 '
+         'failing statements x depths 1-5, truncated, concatenated), SyntaxError reports, None, bytes, hostile and random '
+         'texts x file lists (incl. files under the stdlib/werkzeug/clastic directories) x paths x methods; the page is compared '
+         'byte-for-byte with the extracted model.'),
+   note=COMMON_NOTE + 'Modelled not verified: ashes (rendering discipline is a premise; validated byte-for-byte here), str.splitlines '
+        '(LF/CR/CRLF modelled; other separators oracle-only), _filter_site_files (re-stated in the harness), non-text error values '
+        '(None, bytes) are oracle-only: 200 is demanded, containment is not meaningful.',
+   technique='Coq proof (containment lemmas over a template interpreter, escape distributes over append) + translator (template nodes, exception-handling shape) + extracted-model differential check',
+   design='6/C20'),
  'C16': dict(
    text=('Theorems (Props/C16.v) over Model/Cookie.v (JSONCookie.unserialize -> SecureCookie.unserialize step by step over the '
          'parsed wire form; the middleware\'s load / provide / stamp / save with modification tracking), HMAC/base64/JSON as '
